@@ -19,7 +19,8 @@ EXPLANATION = (
     "access on a per-event sequence is dominated by an emptiness guard or sits in a try that catches IndexError; "
     "D7 dict/JSON and DataFrame forms: to_dict writes the event rows under 'catalog' and from_dict rebuilds from "
     "adict['catalog']; to_dataframe carries catalog_id and from_dataframe selects exactly the dtype columns. NOT "
-    "decided: repr/float round-trips of doubles, csv quoting of awkward ids, catalog_id typing through pandas/JSON.")
+    "decided: repr/float round-trips of doubles, csv quoting of awkward ids, catalog_id typing through pandas/JSON. "
+    "Also decided (round 5): D7.fromdf the catalog id of a frame is handed on as read (no truthiness test: id 0 is an id); shared C18-D5: from_dict rebuilds the region from its argument at every call (no class-level table of regions).")
 CLAUSES = {'D1': 'three-way schema and dialect', 'D2': 'time text shapes', 'D3': 'bound names on the empty path', 'D4': 'exact time steps',
            'D5': 'region dictionary', 'D6': 'guarded element access', 'D7': 'dict / dataframe forms',
            'D8': 'catalog id of an empty catalog'}
